@@ -7,7 +7,7 @@ import os
 import fullstack
 import sockcheck
 
-LEAN_MODULES = ["PyAirtouch.Props.C15", "PyAirtouch.Props.C15At4", "PyAirtouch.Props.C15At5"]
+LEAN_MODULES = ["PyAirtouch.Props.C15", "PyAirtouch.Props.C15At4", "PyAirtouch.Props.C15At5", "PyAirtouch.Props.C15Session"]
 LEVEL = "proof"
 MONITORS = ["c15", "c07a", "c07b", "c07c"]
 
@@ -30,7 +30,58 @@ def run(ctx, deep=False):
         good = sockcheck.judge_family(ctx, "C15", items, MONITORS, gen=gen, nontrivial=_nontrivial)
         sockcheck.validate_against_model(ctx, good, "AT%d" % gen)
     api_level(ctx, thorough)
+    session_level(ctx, thorough)
     ctx.assumptions += ["cancellation semantics of asyncio tasks are trusted"]
+
+
+# ------------------------------------------------------------------------------------------------ suspended handshake handlers
+def _sess_one(job):
+    import sessharness
+    gen, ops = job
+    try:
+        return sessharness.run_ops(gen, ops), None
+    except Exception as e:  # noqa: BLE001
+        return None, "%s: %s" % (type(e).__name__, e)
+
+
+def session_level(ctx, thorough):
+    """tie of `Model/Session.lean` (theorems: Props/C15Session.lean): the real AirTouch 4 / 5 objects over a stub socket, handshake
+    answers whose application callbacks are held up across shutdown() / init(), against the model's `step guardNew`"""
+    import random
+    import sessharness
+    rng = random.Random(ctx.seed * 104729 + 15)
+    n = 2500 if thorough else 250
+    fixed = [["init", "f0", "f1", "f2", "h3", "shutdown", "init", "f0", "f1", "f2", "r", "f3", "f4", "f5"],
+             ["init", "f0", "f1", "f2", "f3", "h4", "shutdown", "init", "f0", "f1", "f2", "f3", "r", "f4", "f5"],
+             ["init", "f0", "f1", "f2", "f3", "f4", "h5", "shutdown", "init", "f0", "f1", "f2", "f3", "f4", "r", "f5"],
+             ["init", "f0", "f1", "f2", "h3", "r", "f4", "f5"],
+             ["init", "f0", "f1", "f2", "h3", "h3", "r", "r", "f4", "f5", "h3", "h5", "shutdown", "r", "init", "r"],
+             ["init", "f0", "f1", "f2", "h3", "shutdown", "init", "f0", "f1", "f2", "h3", "shutdown", "init", "f0", "f1", "f2", "h3", "r", "r", "r", "f4", "f5"]]
+    jobs = [(gen, ops) for gen in (4, 5) for ops in fixed + [sessharness.gen_script(rng) for _ in range(n)]]
+    with multiprocessing.get_context("fork").Pool(min(16, os.cpu_count() or 4)) as pool:
+        reals = pool.map(_sess_one, jobs, chunksize=8)
+    models = ctx.driver(["sess new " + " ".join(ops) for _, ops in jobs]) if ctx.driver_ok else [None] * len(jobs)
+    worst = None
+    for (gen, ops), (real, err), model in zip(jobs, reals, models):
+        if err:
+            raise RuntimeError("session harness failed on %r: %s" % ((gen, ops), err))
+        ctx.case(("session", gen, " ".join(ops)), nontrivial="shutdown" in ops and any(o[0] == "h" for o in ops))
+        ctx.count("session:suspended", sum(1 for r in real if r.endswith(",1")))
+        ctx.count("session:releases", ops.count("r"))
+        ctx.count("session:initialised", sum(1 for r in real if r.split(",")[2] == "1"))
+        if model is not None and model.split() != real and (worst is None or len(ops) < len(worst[1])):
+            worst = (gen, ops, real, model.split())
+    if worst is not None:
+        gen, ops, real, model = worst
+        k = next(i for i, (a, b) in enumerate(zip(real, model)) if a != b)
+        ctx.tie_broken("correspondence:session", "AirTouch %d: model (Session.step guardNew) and implementation differ at op %d (%s) of %s: model %s, implementation %s "
+                       "(phase, requests sent, heartbeat started, handler suspended)" % (gen, k, ops[k], " ".join(ops), model[k], real[k]), scenario=[gen, ops])
+    ctx.coverage["rule"] += (
+        " Suspended handshake handlers: the real AirTouch 4 / 5 objects over a stub socket; handshake answers processed to the end or held up in an "
+        "application callback (the frame is delivered by a task of its own), shutdown(), init(), releases in any order (six fixed histories "
+        "and %d generated ones per generation, a quarter of them arbitrary op sequences); after every op the handshake phase, the number of "
+        "requests sent, whether the heartbeat was started and whether a handler was left suspended are compared with Model/Session.lean "
+        "(driver command `sess new`), about which Props/C15Session.lean proves that a later init() behaves as on a fresh object." % n)
 
 
 # ------------------------------------------------------------------------------------------------ API level
@@ -63,7 +114,16 @@ def judge_api(o):
         bad.append(("send", "sending after shutdown: %s (must raise the not-open error)" % o.get("send_after")))
     if o.get("initialised_after"):
         bad.append(("initialised", "the object reports initialised after shutdown() returned"))
-    if "reinit_result" in o:
+    if "reinit_result" in o and o.get("fresh_handshake"):
+        # a console that takes 1.5 s per answer: init() may give up waiting after 5 s (False), the handshake goes on in the background -
+        # what the new session transmits and what the object shows afterwards are a fresh object's
+        fh = [tuple(k) for k in o["fresh_handshake"]]
+        got = [tuple(k) for k in o.get("reinit_requests", [])][:len(fh)]
+        if got != fh:
+            bad.append(("reinit-handshake", "the new session's first requests are %s, a fresh object's are %s" % (got, fh)))
+        elif o.get("reinit_view_late") != o.get("fresh_view"):
+            bad.append(("reinit-model", "the model shown 312 s after a later init() differs from a fresh object's after the same time"))
+    elif "reinit_result" in o:
         if o["reinit_result"] is not True:
             bad.append(("reinit", "a later init() returned %s" % (o["reinit_result"],)))
         elif o.get("reinit_view") != o.get("baseline_view") and not (o.get("idle", 8000) < 1000 and o.get("later_scripted")):
@@ -106,10 +166,14 @@ def _settled(sc):
 def _api_one(job):
     gen, name, moment, reinit, base_view = job[:5]
     idle = job[5] if len(job) > 5 else 8000
-    extra = job[6] if len(job) > 6 else {}
+    extra = dict(job[6]) if len(job) > 6 else {}
+    fresh = (extra.pop("_fresh_handshake", None), extra.pop("_fresh_view", None))
     try:
         o = fullstack.run(gen, dict(fullstack.SCENARIOS[name], **extra), tuple(moment), reinit, idle=idle)
         o["slow_callbacks"] = bool(extra.get("callback_delay"))
+        o["extra"] = {k: (list(v) if isinstance(v, tuple) else v) for k, v in extra.items()}
+        if fresh[0] is not None:
+            o["fresh_handshake"], o["fresh_view"] = fresh
         sc_ = fullstack.SCENARIOS[name]
         o["later_scripted"] = any(t >= o.get("t_shutdown", 0) for t, _ in sc_.get("calls", [])) or any(c[0] >= o.get("t_shutdown", 0) for c in sc_.get("changes", []))
     except Exception as e:  # noqa: BLE001
@@ -141,6 +205,22 @@ def api_level(ctx, thorough):
                 for t in (62, 70, 77, 152):
                     for k in (0, 1):
                         jobs.append((gen, name, ("tick", t, k), True, ref_view, 10, dict(callback_delay=30, callback_delay_kinds=("ac", "zone"))))
+                # the application subscribes as soon as the objects are listed (during the handshake), its callbacks take four seconds, the
+                # console takes 1.5 s per answer: shutdown() while a handshake status frame is being processed, a new session a second later
+                # that is still in an earlier handshake step when the old callback returns
+                # (callbacks of 4 s: the old handler wakes while the new handshake is in an earlier step; of 6 .. 7 s: while it is in the SAME step
+                # again; of 11 s: after it)
+                for cd in (30, 48, 52, 56, 90):
+                    early = dict(callback_delay=cd, callback_delay_kinds=("ac", "zone"), subscribe_early=True, answer_delay=12, changes=[], pushes=[], faults=[], calls=[],
+                                 horizon=2600)
+                    b2 = fullstack.run(gen, dict(sc, **early))
+                    keys = [q[2] for q in b2["requests"]]
+                    beats = [i for i, q in enumerate(keys) if q == (0x1F, 0x30)]
+                    # what a fresh object transmits up to its first heartbeat, and what it shows 2500 ticks later
+                    early = dict(early, _fresh_handshake=keys[:beats[1] + 1] if len(beats) > 1 else keys, _fresh_view=b2["view"])
+                    for (t, which) in [c for c in b2.get("baseline_callbacks", []) if c[1].split(":")[0] in ("ac", "zone")][:3]:
+                        for k in (1, 9):
+                            jobs.append((gen, name, ("tick", t + k, 0), True, ref_view, 10, early))
             if sc.get("calls") and sc.get("faults"):
                 # commands are waiting for a connection when shutdown() is called, and the application starts a new session a second later
                 # (well inside the commands' 30 s lifetime): nothing of the old session may be transmitted in the new one
@@ -174,6 +254,7 @@ def api_level(ctx, thorough):
             gen, name, "%d loop passes after network event %d" % (moment[2], moment[1]) if moment[0] == "event" else
             "%d loop passes into application callback number %d" % (moment[2], moment[1]) if moment[0] == "callback" else "%d loop passes after tick %d" % (moment[2], moment[1]),
             o.get("state_before"), what), kind="history", level="api", gen=gen, scenario=name, moment=list(moment), reinit=reinit,
+            idle=o.get("idle", 8000), extra=o.get("extra") or {}, fresh=[o.get("fresh_handshake"), o.get("fresh_view")],
             implementation_output={k: v for k, v in o.items() if k not in ("reinit_view", "baseline_view")}, spec_verdict=what)
     ctx.coverage["rule"] += (
         " API level: the real AirTouch4 / AirTouch5 object over the real socket and the in-memory transport against a scripted console "
@@ -190,7 +271,15 @@ def search(ctx):
 
 def replay(ctx, data):
     if data.get("level") == "api":
-        o = fullstack.run(data["gen"], fullstack.SCENARIOS[data["scenario"]], tuple(data["moment"]), data.get("reinit", False))
+        extra = dict(data.get("extra") or {})
+        if "callback_delay_kinds" in extra:
+            extra["callback_delay_kinds"] = tuple(extra["callback_delay_kinds"])
+        o = fullstack.run(data["gen"], dict(fullstack.SCENARIOS[data["scenario"]], **extra), tuple(data["moment"]), data.get("reinit", False), idle=data.get("idle", 8000))
+        o["slow_callbacks"] = bool(extra.get("callback_delay"))
+        sc_ = fullstack.SCENARIOS[data["scenario"]]
+        o["later_scripted"] = any(t >= o.get("t_shutdown", 0) for t, _ in sc_.get("calls", [])) or any(c[0] >= o.get("t_shutdown", 0) for c in sc_.get("changes", []))
+        if (data.get("fresh") or [None])[0] is not None:
+            o["fresh_handshake"], o["fresh_view"] = data["fresh"]
         o["baseline_view"] = fullstack.run(data["gen"], _settled(fullstack.SCENARIOS[data["scenario"]]))["view"]
         bad = judge_api(o)
         print({k: v for k, v in o.items() if "view" not in k})
